@@ -140,7 +140,10 @@ def gen_config(rng, system=None, tier='quick', allow_noniso=True, out_of_window=
         if r < 0.45:
             continue
         name = str(rng.choice(['needle', 'plate', 'cubic']))
-        cfg['shape'][p] = {'name': name, 'ar': float(rng.uniform(1.0, 4.0))}
+        ar = float(rng.uniform(1.0, 4.0))
+        if ar < 1.6:
+            ar = 1.0      # a non-spherical shape at its default aspect ratio of exactly 1 (limit values of the shape factors; seeded change C03-e)
+        cfg['shape'][p] = {'name': name, 'ar': ar}
     for p in phases:
         if rng.random() < 0.2:
             cfg['strain'][p] = {'kind': 'constant', 'value': _loguniform(rng, 1e5, 2e7)}
